@@ -60,6 +60,7 @@ enum { K_PARKED = 0, K_SPINNER = 1, K_SLEEPER = 2, K_NULLSP = 3, K_EXITER = 4 };
 
 static struct thr thrs[MAX_THREADS] __attribute__((aligned(16)));
 static int nthr;
+static int leader_exit;
 static __thread int my_id = -1;
 
 struct map {
@@ -469,6 +470,8 @@ int main(int argc, char **argv) {
       if (!(fxhex[0] == '-' && fxhex[1] == 0)) unhex(fxhex, t->fx, 512);
       if (t->kind == K_EXITER && pipe(t->pipefd) != 0) die("pipe");
       nthr++;
+    } else if (!strcmp(cmd, "leaderexit")) {
+      leader_exit = 1;
     } else if (!strcmp(cmd, "end")) {
       break;
     }
@@ -506,6 +509,7 @@ int main(int argc, char **argv) {
   // before entering asm; the harness additionally waits for stable state.
   printf("ready\n");
   fflush(stdout);
+  if (leader_exit) syscall(SYS_exit, 0); // only the main thread exits: zombie thread-group leader
   // command loop
   while (fgets(line, sizeof line, stdin)) {
     char cmd[32];
